@@ -5,5 +5,39 @@ PROP = "C12"
 THEOREMS = ["C12_exactly_one_reply", "C12_any_frame", "C12_inflight_zero_drops", "C12_reply_then_close_witness"]
 
 
+import serverlib as sl
+
+
+def burst_histories(r, thorough):
+    """pipelining: one write carries a burst of requests within the advertised in-flight limit
+    (also beyond the writer's 128-frame batch); every id must be answered exactly once"""
+    cases = []
+    for _ in range(12 if thorough else 4):
+        cfg = sl.base_cfg(r, None)
+        n = r.choice([5, 100, 129, 130, 200, 300])
+        cfg.update({"max_clients": 10, "max_subs": 10, "max_conns": 16, "max_inflight": 512, "queue": 1024, "max_message": 8192})
+        g = sl.Gen(r, cfg)
+        for k, u in ((1, "alice"), (2, "bob")):
+            g.ops.append({"t": "open", "k": k})
+            g.send(k, sl.frame("CONNECT", [("version", 1), ("heartbeat_interval", 0)]))
+            g.send(k, sl.frame("IDENTIFY", [("username", u)]))
+            g.send(k, sl.frame("JOIN", [("id", g.rid()), ("channel", "!c1@localhost")]))
+            g.conns[k] = {"phase": 2, "user": u}
+        burst = b""
+        for _ in range(n):
+            x = r.random()
+            i = g.rid()
+            if x < 0.5:
+                burst += sl.frame("CHANNELS", [("id", i)])
+            elif x < 0.8:
+                burst += sl.frame("MEMBERS", [("id", i), ("channel", "!c1@localhost")])
+            else:
+                burst += sl.frame("GET_CHAN_CONFIG", [("id", i), ("channel", r.choice(["!c1@localhost", "!c7@localhost"]))])
+        g.ops.append({"t": "send", "k": 1, "bytes": burst.hex(), "script": []})
+        cases.append({"cfg": cfg, "ops": g.ops})
+    return cases
+
+
 def run(tier, replay=None):
-    return srvprops.run(PROP, THEOREMS, tier, replay)
+    return srvprops.run(PROP, THEOREMS, tier, replay, extra_gen=burst_histories,
+                        rule_note="plus pipelined bursts of 5-300 requests in one write (in-flight limit 512)")
